@@ -49,6 +49,25 @@ func genC20(t *rapid.T) CaseC20 {
 		c.Steps = []Step{{"a", -1}, {k, -1}, {rapid.SampledFrom([]string{k, k2, "*"}).Draw(t, "s3"), -1}}
 	case 1:
 		c.Value, c.Steps, c.Key = boostLIL(t)
+	case 2:
+		// an attribute-like key holding a container, reached through an interior wildcard (a JSON-only shape)
+		k := rapid.SampledFrom(shapeKeys).Draw(t, "k")
+		c.Value = map[string]interface{}{"a": map[string]interface{}{
+			"-m": map[string]interface{}{k: instScalar(t), "z": map[string]interface{}{k: "deep"}},
+			"b":  map[string]interface{}{k: instScalar(t), "-n": []interface{}{map[string]interface{}{k: "in-attr-list"}}},
+			"l":  []interface{}{map[string]interface{}{k: instScalar(t)}, map[string]interface{}{"-q": map[string]interface{}{k: "x"}}},
+		}}
+		c.Key = k
+		switch rapid.IntRange(0, 3).Draw(t, "wp") {
+		case 0:
+			c.Steps = []Step{{"a", -1}, {"*", -1}, {k, -1}}
+		case 1:
+			c.Steps = []Step{{"a", -1}, {"*", -1}, {"*", -1}, {k, -1}}
+		case 2:
+			c.Steps = []Step{{"*", -1}, {"*", -1}, {"z", -1}, {k, -1}}
+		default:
+			c.Steps = []Step{{"a", -1}, {"l", -1}, {"*", -1}, {k, -1}}
+		}
 	default:
 		sh := genRootShape(t, rapid.IntRange(0, 4).Draw(t, "lil") == 0)
 		c.Value = instantiate(t, sh).(map[string]interface{})
